@@ -25,7 +25,7 @@ def main(argv=None) -> int:
     if args.replay:
         with open(args.replay) as fh:
             doc = json.load(fh)
-        vs = mod.replay(doc["case"])
+        vs = mod.replay(doc["case"]) if not doc["case"].get("job_crash") else []
         kinds = sorted({v.kind for v in vs})
         want = doc.get("kind")
         hit = [v for v in vs if want is None or v.kind == want]
@@ -33,7 +33,9 @@ def main(argv=None) -> int:
         if not hit and doc.get("job") is not None:
             # history-dependent failure (state carried from earlier cases of the same job): replay the whole job
             mode = "job"
-            r = mod.run(_tuplify(doc["job"]))
+            from . import runner as _runner
+
+            r = _runner._run_job((mod.__name__, _tuplify(doc["job"])))
             vs = r.violations
             kinds = sorted({v.kind for v in vs})
             norm = json.loads(json.dumps(doc["case"], default=str))
